@@ -33,6 +33,11 @@ type PsyncReq struct {
 	At      time.Time
 }
 
+type DropEv struct {
+	At  time.Time
+	Pos int64
+}
+
 type Script struct {
 	RunID       string
 	StartOffset int64  // announced in +FULLRESYNC (stream position 0 has replication offset StartOffset+1)
@@ -45,6 +50,7 @@ type Script struct {
 	Frag        []int         // sizes of successive writes (cycled); empty = all at once
 	Gap         time.Duration // pause between writes
 	ResumeMode  string        // on a later PSYNC: "continue" (default) | "refuse" | "fullresync"
+	HonorFirst  bool          // treat even the first PSYNC as a resume request: CONTINUE iff id and offset fit the kept backlog
 	Version     string
 }
 
@@ -69,6 +75,7 @@ type Source struct {
 	closed   bool
 	dropAt   int64 // drop the link once this many stream bytes were written (-1 = never)
 	BadAuth  int
+	Drops    []DropEv
 }
 
 func New(sc Script, password string) (*Source, error) {
@@ -132,6 +139,13 @@ func (s *Source) Written() int64 {
 	s.mu.Lock()
 	defer s.mu.Unlock()
 	return s.written
+}
+
+// DropCount returns how many scripted drops happened so far.
+func (s *Source) DropCount() int {
+	s.mu.Lock()
+	defer s.mu.Unlock()
+	return len(s.Drops)
 }
 
 func (s *Source) StreamLen() int64 {
@@ -237,7 +251,7 @@ func (s *Source) serve(c net.Conn, id int) {
 			first := len(s.Psyncs) == 0
 			s.Psyncs = append(s.Psyncs, PsyncReq{Seq: s.seq, RunID: runid, Offset: off, Written: s.written, Conn: id, At: time.Now()})
 			s.mu.Unlock()
-			if first {
+			if first && !s.Script.HonorFirst {
 				s.firstPsync(c, id)
 			} else {
 				s.laterPsync(c, id, runid, off)
@@ -346,6 +360,7 @@ func (s *Source) writer(c net.Conn, id int, prefix []byte, from int64) {
 		if s.dropAt >= 0 && pos >= s.dropAt {
 			s.dropAt = -1
 			s.repl = nil
+			s.Drops = append(s.Drops, DropEv{At: time.Now(), Pos: pos})
 			s.mu.Unlock()
 			c.Close()
 			return
